@@ -6,7 +6,16 @@
 //   - every arrival sequence of good parts with duplicates up to length total+1 (=> every permutation, every duplication);
 //   - at every reachable subset state, every member of a corrupted-part catalogue (flipped byte at every position,
 //     truncated/extended bytes, foreign proof, foreign bytes, index/total rewrites, leaf-hash/aunt corruption,
-//     out-of-range indices, parts of a different set with the same / another total).
+//     out-of-range indices, parts of a different set with the same / another total).  Every catalogue member is
+//     derived in THREE ways: from a freshly built part (as decoded from the network), from a struct copy of a part
+//     VALUE that has already been accepted by a set (copy carries whatever hidden state the struct has), and by
+//     mutating in place a part value that has already been accepted by another set with the same header.  Because
+//     the sets of the arrival enumeration hold those very accepted values, each candidate meets both "the set that
+//     accepted its origin" (index present) and "a fresh set with the same header" (index absent).
+//   - schedule enumeration (sched.go): 2-3 threads, each 1-2 operations out of {AddPart(good i), AddPart(corrupted
+//     copy of accepted i), observe} on a 2-3 part set (optionally pre-filled => duplicates), part_set.go built with
+//     its "sync" import rewritten to the controlled scheduler: ALL schedules with <= 2 preemptions, oracle after
+//     every execution; plus a free-running pass of the same scenarios under the race detector.
 //
 // Oracle: an independent re-implementation of the RFC-6962 style merkle tree (sha256, 0x00/0x01 prefixes, split at the
 // largest power of two < n) decides whether a part "matches the part-set header"; the model of the set is a map
@@ -19,6 +28,7 @@ package main
 import (
 	"bytes"
 	"crypto/sha256"
+	"flag"
 	"fmt"
 	"io"
 	"math"
@@ -41,6 +51,8 @@ var (
 	nTransitions atomic.Int64 // AddPart calls checked against the model
 	nSeq         atomic.Int64 // arrival sequences (DFS nodes)
 	nCases       atomic.Int64
+
+	nScratchRejected atomic.Int64 // good parts rejected by a scratch set while deriving acc-inplace candidates
 )
 
 // ---------- reference merkle (independent of tm2/pkg/crypto/merkle) ----------
@@ -143,6 +155,57 @@ func clonePart(p *types.Part) *types.Part {
 	return q
 }
 
+// structCopy copies the Part VALUE (so it carries along whatever unexported / cached state the struct may hold) and
+// then gives the copy private slices, so that mutating the copy never touches the origin.
+func structCopy(p *types.Part) *types.Part {
+	q := *p
+	q.Bytes = append([]byte(nil), p.Bytes...)
+	q.Proof.LeafHash = append([]byte(nil), p.Proof.LeafHash...)
+	if p.Proof.Aunts != nil {
+		q.Proof.Aunts = make([][]byte, len(p.Proof.Aunts))
+		for i, a := range p.Proof.Aunts {
+			q.Proof.Aunts[i] = append([]byte(nil), a...)
+		}
+	}
+	return &q
+}
+
+// How a catalogue candidate is derived from good part i of a case.
+type deriv int
+
+const (
+	dFresh           deriv = iota // field-wise rebuilt part: never seen by any AddPart (network input)
+	dAcceptedCopy                 // struct copy of a part value that was accepted by a set (tc.accSet and the enumeration's sets)
+	dAcceptedInPlace              // its own part value, accepted by a scratch set with the same header, then mutated in place
+)
+
+var derivs = []deriv{dFresh, dAcceptedCopy, dAcceptedInPlace}
+
+func (d deriv) prefix() string {
+	switch d {
+	case dAcceptedCopy:
+		return "acc-copy:"
+	case dAcceptedInPlace:
+		return "acc-inplace:"
+	}
+	return ""
+}
+
+func derive(d deriv, owner *tcase, i int) *types.Part {
+	switch d {
+	case dAcceptedCopy:
+		return structCopy(owner.good[i])
+	case dAcceptedInPlace:
+		o := clonePart(owner.good[i])
+		scratch := types.NewPartSetFromHeader(owner.header)
+		if added, err := scratch.AddPart(o); !added || err != nil {
+			nScratchRejected.Add(1) // judged in main (a good part must be accepted by a fresh set)
+		}
+		return o
+	}
+	return clonePart(owner.good[i])
+}
+
 func mkData(pattern string, n int) []byte {
 	d := make([]byte, n)
 	for i := range d {
@@ -179,7 +242,9 @@ type tcase struct {
 	root   []byte
 	src    *types.PartSet
 	header types.PartSetHeader
-	good   []*types.Part // pristine copies
+	good   []*types.Part // copies of the source parts; every one has been accepted by accSet (mkCase)
+	accSet *types.PartSet
+	accRes []string // AddPart results of building accSet ("" = added,nil)
 	hist   map[string]int64
 	evals  int64
 }
@@ -279,24 +344,34 @@ type cand struct {
 // catalogue of corrupted / foreign / out-of-range parts for a case.
 func catalogue(tc *tcase, other *tcase, bigger *tcase, smaller *tcase) []cand {
 	var cs []cand
-	add := func(label string, p *types.Part) { cs = append(cs, cand{label, p}) }
+	for _, d := range derivs {
+		cs = append(cs, catalogue1(d, tc, other, bigger, smaller)...)
+	}
+	return cs
+}
+
+func catalogue1(d deriv, tc *tcase, other *tcase, bigger *tcase, smaller *tcase) []cand {
+	var cs []cand
+	add := func(label string, p *types.Part) { cs = append(cs, cand{d.prefix() + label, p}) }
 	for i := 0; i < tc.total; i++ {
-		g := tc.good[i]
+		g := tc.good[i] // read only (lengths); candidates come from derive()
+		i := i
+		cloneG := func() *types.Part { return derive(d, tc, i) }
 		for b := 0; b < len(g.Bytes); b++ {
 			for _, x := range []byte{0x01, 0x80} {
-				p := clonePart(g)
+				p := cloneG()
 				p.Bytes[b] ^= x
 				add(fmt.Sprintf("i%d:flipbyte%d^%02x", i, b, x), p)
 			}
 		}
 		{
-			p := clonePart(g)
+			p := cloneG()
 			p.Bytes = p.Bytes[:len(p.Bytes)-1]
 			add(fmt.Sprintf("i%d:truncbytes", i), p)
-			p = clonePart(g)
+			p = cloneG()
 			p.Bytes = append(p.Bytes, 0)
 			add(fmt.Sprintf("i%d:extendbytes", i), p)
-			p = clonePart(g)
+			p = cloneG()
 			p.Bytes = nil
 			add(fmt.Sprintf("i%d:nilbytes", i), p)
 		}
@@ -304,92 +379,93 @@ func catalogue(tc *tcase, other *tcase, bigger *tcase, smaller *tcase) []cand {
 			if j == i {
 				continue
 			}
-			o := tc.good[j]
+			o := tc.good[j] // read only
+			cloneO := func() *types.Part { return derive(d, tc, j) }
 			// bytes of j under i's proof
-			p := clonePart(g)
+			p := cloneG()
 			p.Bytes = append([]byte(nil), o.Bytes...)
 			add(fmt.Sprintf("i%d:bytesOf%d", i, j), p)
 			// i's bytes, j's proof untouched (Proof.Index=j)
-			p = clonePart(g)
-			p.Proof = clonePart(o).Proof
+			p = cloneG()
+			p.Proof = cloneO().Proof
 			add(fmt.Sprintf("i%d:proofOf%d", i, j), p)
 			// i's bytes, j's proof with Proof.Index rewritten to i
-			p = clonePart(g)
-			p.Proof = clonePart(o).Proof
+			p = cloneG()
+			p.Proof = cloneO().Proof
 			p.Proof.Index = i
 			add(fmt.Sprintf("i%d:proofOf%d-reindexed", i, j), p)
 			// the whole valid part j, only Part.Index rewritten to i (the "store at wrong position" attack)
-			p = clonePart(o)
+			p = cloneO()
 			p.Index = i
 			add(fmt.Sprintf("i%d:wholePart%d-partindex-rewritten", i, j), p)
 			// whole part j with both indices rewritten
-			p = clonePart(o)
+			p = cloneO()
 			p.Index = i
 			p.Proof.Index = i
 			add(fmt.Sprintf("i%d:wholePart%d-bothindex-rewritten", i, j), p)
 		}
 		for _, d := range []int{-1, 1} {
-			p := clonePart(g)
+			p := cloneG()
 			p.Proof.Total += d
 			add(fmt.Sprintf("i%d:proofTotal%+d", i, d), p)
-			p = clonePart(g)
+			p = cloneG()
 			p.Proof.Index += d
 			add(fmt.Sprintf("i%d:proofIndex%+d", i, d), p)
 		}
 		{
-			p := clonePart(g)
+			p := cloneG()
 			p.Proof.LeafHash[0] ^= 1
 			add(fmt.Sprintf("i%d:leafhashflip", i), p)
-			p = clonePart(g)
+			p = cloneG()
 			p.Proof.LeafHash = nil
 			add(fmt.Sprintf("i%d:leafhashnil", i), p)
-			p = clonePart(g)
+			p = cloneG()
 			p.Proof.LeafHash = p.Proof.LeafHash[:31]
 			add(fmt.Sprintf("i%d:leafhashshort", i), p)
 		}
 		for a := range g.Proof.Aunts {
-			p := clonePart(g)
+			p := cloneG()
 			p.Proof.Aunts[a][31] ^= 0x80
 			add(fmt.Sprintf("i%d:aunt%dflip", i, a), p)
-			p = clonePart(g)
+			p = cloneG()
 			p.Proof.Aunts = append(p.Proof.Aunts[:a:a], p.Proof.Aunts[a+1:]...)
 			add(fmt.Sprintf("i%d:aunt%ddropped", i, a), p)
 			if a+1 < len(g.Proof.Aunts) {
-				p = clonePart(g)
+				p = cloneG()
 				p.Proof.Aunts[a], p.Proof.Aunts[a+1] = p.Proof.Aunts[a+1], p.Proof.Aunts[a]
 				add(fmt.Sprintf("i%d:aunt%dswapped", i, a), p)
 			}
 		}
 		{
-			p := clonePart(g)
+			p := cloneG()
 			p.Proof.Aunts = append(p.Proof.Aunts, refLeaf([]byte("extra")))
 			add(fmt.Sprintf("i%d:auntextra", i), p)
-			p = clonePart(g)
+			p = cloneG()
 			p.Proof.Aunts = nil
 			add(fmt.Sprintf("i%d:auntsnil", i), p) // valid when total==1
 		}
 		// out-of-range indices carrying otherwise valid content
 		for _, idx := range []int{tc.total, tc.total + 1, math.MaxInt32, -1, math.MinInt32} {
-			p := clonePart(g)
+			p := cloneG()
 			p.Index = idx
 			add(fmt.Sprintf("i%d:index=%d", i, idx), p)
-			p = clonePart(g)
+			p = cloneG()
 			p.Index = idx
 			p.Proof.Index = idx
 			add(fmt.Sprintf("i%d:index=proofindex=%d", i, idx), p)
 		}
 		if other != nil && i < other.total {
-			add(fmt.Sprintf("i%d:otherSetSameTotal", i), clonePart(other.good[i]))
+			add(fmt.Sprintf("i%d:otherSetSameTotal", i), derive(d, other, i))
 		}
 		if bigger != nil && i < bigger.total {
-			add(fmt.Sprintf("i%d:biggerSet", i), clonePart(bigger.good[i]))
+			add(fmt.Sprintf("i%d:biggerSet", i), derive(d, bigger, i))
 		}
 		if smaller != nil && i < smaller.total {
-			add(fmt.Sprintf("i%d:smallerSet", i), clonePart(smaller.good[i]))
+			add(fmt.Sprintf("i%d:smallerSet", i), derive(d, smaller, i))
 		}
 	}
 	if bigger != nil {
-		add("biggerSet:last", clonePart(bigger.good[bigger.total-1]))
+		add("biggerSet:last", derive(d, bigger, bigger.total-1))
 	}
 	return cs
 }
@@ -403,6 +479,15 @@ func mkCase(name string, P int, data []byte) *tcase {
 	tc.header = tc.src.Header()
 	for i := 0; i < tc.src.Total(); i++ {
 		tc.good = append(tc.good, clonePart(tc.src.GetPart(i)))
+	}
+	// every good part value goes through AddPart once (reverse order), so that everything derived from tc.good by
+	// struct copy is "derived from an accepted part"
+	tc.accSet = types.NewPartSetFromHeader(tc.header)
+	tc.accRes = make([]string, tc.total)
+	for i := tc.total - 1; i >= 0; i-- {
+		if added, err := tc.accSet.AddPart(tc.good[i]); !added || err != nil {
+			tc.accRes[i] = fmt.Sprintf("added=%v err=%v", added, err)
+		}
 	}
 	return tc
 }
@@ -560,6 +645,28 @@ func runCase(tc *tcase, cat []cand, maxExtra int) {
 		}
 	}
 	checkComplete(tc, tc.src, []int{-1})
+	for i, res := range tc.accRes {
+		if res != "" {
+			viol(tc, nil, fmt.Sprintf("good part %d rejected by an empty set built from the header", i), map[string]any{"result": res})
+			return
+		}
+	}
+	if !tc.accSet.IsComplete() {
+		viol(tc, nil, "set that accepted every good part is not complete", nil)
+		return
+	}
+	checkComplete(tc, tc.accSet, []int{-2})
+	defer func() {
+		// the set that accepted the origins of all acc-copy candidates is untouched by everything done to the copies
+		full := &model{have: map[int][]byte{}}
+		for i := range tc.chunk {
+			full.have[i] = tc.chunk[i]
+		}
+		if d := full.diff(tc, observe(tc.accSet, tc.total)); d != "" {
+			viol(tc, nil, "set holding the accepted origin parts changed while copies of them were mutated/offered elsewhere", map[string]any{"diff": d})
+		}
+		checkComplete(tc, tc.accSet, []int{-2})
+	}()
 
 	seenSubset := map[uint32]bool{}
 	var seq []int
@@ -699,6 +806,18 @@ func realBlock1(ntx, txsize int) {
 			if a, e := dst2.AddPart(bad); a || e == nil {
 				viol(tc, ord, "real block: corrupted part accepted", map[string]any{"i": i})
 			}
+			// the same corruption on a struct copy of the part value dst has just accepted: offered to a fresh set
+			// (must be rejected) and to dst itself (index present: not added, nothing changes)
+			bad2 := structCopy(p)
+			bad2.Bytes[len(bad2.Bytes)/2] ^= 0x10
+			dst3 := types.NewPartSetFromHeader(src.Header())
+			if a, e := dst3.AddPart(bad2); a || e == nil {
+				viol(tc, ord, "real block: corrupted copy of an accepted part accepted by a fresh set", map[string]any{"i": i})
+			}
+			cnt := dst.Count()
+			if a, _ := dst.AddPart(bad2); a || dst.Count() != cnt || dst.GetPart(i) != p {
+				viol(tc, ord, "real block: corrupted copy of an accepted part changed the set that holds the original", map[string]any{"i": i})
+			}
 		}
 		if !dst.IsComplete() {
 			viol(tc, ord, "real block: not complete", nil)
@@ -724,9 +843,22 @@ func realBlock1(ntx, txsize int) {
 }
 
 func main() {
+	worker := flag.String("worker", "", "internal: schedule worker k:n:bound:budgetSeconds")
+	free := flag.Int("freerun", 0, "internal: free-running iterations per scenario (race binary)")
+	raceBin := flag.String("racebin", "", "path of the -race build of this harness")
+	t0 := time.Now()
 	r = vk.New("exploration")
+	if *free > 0 {
+		freeRun(*free, r.Thorough())
+		return
+	}
+	if *worker != "" {
+		schedWorker(*worker, r.Thorough())
+		return
+	}
 	if r.ReplayIn != "" {
-		fmt.Printf("replay %s: the exploration is deterministic and exhaustive; re-running the quick tier re-reports the recorded violation key if it still occurs\n", r.ReplayIn)
+		replaySched(r)
+		return
 	}
 	if pf := os.Getenv("VERIF_PROF"); pf != "" {
 		f, _ := os.Create(pf)
@@ -810,14 +942,28 @@ func main() {
 		realBlock(40, 40000) // ~25 parts
 	}
 
+	if n := nScratchRejected.Load(); n != 0 {
+		r.Violation("good part rejected by a scratch set built from the header", map[string]any{"times": n})
+	}
+	pprof.StopCPUProfile()
+
+	// schedule enumeration (worker subprocesses: one exploration per process) + free-running -race pass
+	seqWall := time.Since(t0).Seconds()
+	schedCov := schedulePhase(r, *raceBin, r.Budget-time.Since(t0))
+	schedCov["phase_wall_s"].(map[string]float64)["sequential"] = seqWall
+
 	r.Assumptions = []string{
+		"schedule phase: scheduling points are the mutex operations of part_set.go (import-rewritten shim); code between them is atomic, which is sound for data-race-free code - races are looked for by the separate free-running -race pass; small scope: <=3 threads, <=2 operations each, <=3 parts, <=2 preemptions (thorough: 3)",
 		"sha256 is collision free on the enumerated inputs (checked: the reference never accepts foreign content)",
 		"Part.Index >= 0 is a documented precondition of AddPart (Part.ValidateBasic, enforced by BlockPartMessage.ValidateBasic); a negative index panics with index-out-of-range and is only required to leave the set unchanged",
 		"empty data (0 parts) is outside the property's domain (a serialized block is never empty): NewPartSetFromData(nil) panics; recorded in the outcome histogram only",
 	}
-	pprof.StopCPUProfile()
-	r.Finish(fmt.Sprintf("every data length 1..%d*P for part sizes %v x 3 byte patterns; every arrival sequence of good parts with duplicates up to length total+%d; at every subset state the full corrupted-part catalogue; real 64kB-part block round trips; oracle = independent RFC6962 merkle + map model",
-		maxParts, partSizes, maxExtra), true,
-		map[string]any{"cases": nCases.Load(), "states": nStates.Load(), "transitions": nTransitions.Load(), "arrival_sequences": nSeq.Load(),
-			"catalogue_entries_total": catTotal.Load(), "max_parts": maxParts, "part_sizes": partSizes})
+	cov := map[string]any{"cases": nCases.Load(), "states": nStates.Load(), "transitions": nTransitions.Load(), "arrival_sequences": nSeq.Load(),
+		"catalogue_entries_total": catTotal.Load(), "catalogue_derivations": []string{"fresh", "struct copy of an accepted part value", "accepted part value mutated in place"},
+		"max_parts": maxParts, "part_sizes": partSizes}
+	for k, v := range schedCov {
+		cov[k] = v
+	}
+	r.Finish(fmt.Sprintf("every data length 1..%d*P for part sizes %v x 3 byte patterns; every arrival sequence of good parts with duplicates up to length total+%d; at every subset state the full corrupted-part catalogue, each member derived from a fresh part / a struct copy of an accepted part / an accepted part mutated in place; real 64kB-part block round trips; oracle = independent RFC6962 merkle + map model. Then every generated concurrent scenario (2-3 threads x 1-2 ops of {AddPart good, AddPart corrupted, observe} on 2-3 part sets, pre-fills, own/shared part pointers) under every schedule with <= %v preemptions, oracle after each execution; free-running -race pass",
+		maxParts, partSizes, maxExtra, schedCov["preemption_bound"]), true, cov)
 }
